@@ -64,10 +64,30 @@ type c12Result struct {
 	Statuses   string    `json:"statuses,omitempty"`
 	Delivered  int       `json:"delivered"` // messages delivered by polls after a backend-initiated close
 	CloseSeen  int       `json:"close_seen"`
+	Landed     bool      `json:"landed"`   // open‖poll: a poll found the session before the open returned
+	Unjudged   int       `json:"unjudged"` // oracle evaluations skipped after repeated misses of the same bound
 	Ms         int64     `json:"ms"`
 }
 
 var c12Scale = 1
+
+// A progress bound that has been missed three times in this process is not
+// waited for in full again: further cases only note that the oracle was not
+// evaluated ("unjudged"), so a tree that never answers cannot stall the check.
+var c12MissMu sync.Mutex
+var c12Misses = map[string]int{}
+
+func c12Missed(kind string) bool {
+	c12MissMu.Lock()
+	defer c12MissMu.Unlock()
+	return c12Misses[kind] >= 3
+}
+
+func c12NoteMiss(kind string) {
+	c12MissMu.Lock()
+	c12Misses[kind]++
+	c12MissMu.Unlock()
+}
 
 func c12Main(specBytes []byte) {
 	var spec c12Spec
@@ -184,7 +204,21 @@ func (x *c12Exec) judge(action, label, reject string, a shimAnswer) {
 }
 
 func (x *c12Exec) call(action, label, reject string, hdr [][2]string, body []byte) shimAnswer {
+	if c12Missed("no-answer:" + action) {
+		a := shimStart(x.h, nil, "", shimReq(action, hdr, body)).wait(2 * time.Second)
+		if !a.Answered && a.Panic == "" {
+			x.mu.Lock()
+			x.res.Unjudged++
+			x.mu.Unlock()
+			return a
+		}
+		x.judge(action, label, reject, a)
+		return a
+	}
 	a := shimStart(x.h, nil, "", shimReq(action, hdr, body)).wait(c12Bound(action))
+	if !a.Answered && a.Panic == "" {
+		c12NoteMiss("no-answer:" + action)
+	}
 	x.judge(action, label, reject, a)
 	return a
 }
@@ -221,12 +255,25 @@ func c12BackendMsg(i int) shimMsg {
 
 // checkBackendClosed: after a close answered 200 the backend must observe the websocket closing.
 func (x *c12Exec) checkBackendClosed(s *c12Sess, after string) {
+	if c12Missed("backend-not-closed") {
+		if s.bc.waitClosed(30 * time.Millisecond) {
+			x.mu.Lock()
+			x.res.CloseSeen++
+			x.mu.Unlock()
+		} else {
+			x.mu.Lock()
+			x.res.Unjudged++
+			x.mu.Unlock()
+		}
+		return
+	}
 	if s.bc.waitClosed(10 * time.Second * time.Duration(c12Scale)) {
 		x.mu.Lock()
 		x.res.CloseSeen++
 		x.mu.Unlock()
 		return
 	}
+	c12NoteMiss("backend-not-closed")
 	x.mu.Lock()
 	x.res.NoAnswer = append(x.res.NoAnswer, "backend-close-observation")
 	x.mu.Unlock()
@@ -570,6 +617,17 @@ func (x *c12Exec) forced() {
 		x.res.Skipped++
 		return
 	}
+	if sc.Spin && len(sc.Rules) == 0 {
+		// unforced and cheap: the race is run five times on fresh handlers
+		for i := 0; i < 4; i++ {
+			x.forcedOnce(sc)
+			x.h = shimProxy(nil, x.b.addr, "shim", false, false)
+		}
+	}
+	x.forcedOnce(sc)
+}
+
+func (x *c12Exec) forcedOnce(sc *c12Sched) {
 	var s *c12Sess
 	token := ""
 	if sc.Pair != "open-poll" {
@@ -625,7 +683,9 @@ func (x *c12Exec) forced() {
 	rules := make([]shimRule, len(sc.Rules))
 	copy(rules, sc.Rules)
 	sched := newShimSched(rules...)
-	sched.activate()
+	if len(rules) > 0 || strings.Contains(sc.After, "@") {
+		sched.activate() // otherwise the hooks stay inert: an unforced schedule must not be serialised by the scheduler's own lock
+	}
 	doX := func() {
 		for i := 0; i < sc.K; i++ {
 			m := c12BackendMsg(len(s.sent))
@@ -784,6 +844,7 @@ func (x *c12Exec) spin(sched *shimSched, proto *http.Request) *shimPending {
 			a := shimStart(x.h, sched, "B", shimReq("poll", nil, body)).wait(c12Bound("poll"))
 			if !a.Answered || a.Status != 400 || last || n > 20000 {
 				x.mu.Lock()
+				x.res.Landed = x.res.Landed || (a.Answered && a.Status != 400 && !last) // found the session before the open had returned
 				x.res.Calls += n
 				x.mu.Unlock()
 				p.done <- a
